@@ -7,7 +7,7 @@ classes, weights computed from the masked values; (centre) width resolution
 and degenerate case; (unit-sum); (relative) plumbing of relative_pd.
 Not decided: finiteness, monotonicity and positivity of the numbers.
 """
-import ast
+import ast, re
 import sympy as sp
 from ..report import run_check, AnalysisError
 from .. import pyfacts as pf
@@ -241,9 +241,13 @@ def rule_unit_sum(r):
     if not rets:
         raise AnalysisError("get_weights: no return")
     for ret in rets:
-        ok = isinstance(ret.value, ast.Tuple) and len(ret.value.elts) == 2 and \
-            pf.unparse(ret.value.elts[1]) in ("w / np.sum(w)", "w / w.sum()", "w / sum(w)")
-        r.check(ok, F, "get_weights", "return %s" % pf.unparse(ret.value), ret.lineno, "weights normalised to unit sum")
+        ok = False
+        if isinstance(ret.value, ast.Tuple) and len(ret.value.elts) == 2:
+            w = ret.value.elts[1]
+            txt = pf.inlined_text(fn, w)
+            m = re.fullmatch(r"(\w+) / (?:np\.sum\((\w+)\)|(\w+)\.sum\(\)|sum\((\w+)\))", txt)
+            ok = bool(m) and m.group(1) in [g for g in m.groups()[1:] if g]
+        r.check(ok, F, "get_weights", "return %s" % pf.inlined_text(fn, ret.value), ret.lineno, "weights divided by their own sum")
     call = [c_ for c_ in pf.calls_in(fn) if isinstance(c_.func, ast.Attribute) and c_.func.attr == "get_weights"]
     okc = bool(call) and [pf.unparse(a) for a in call[0].args] == ["value", "limits[0]", "limits[1]", "relative"]
     r.check(okc, F, "get_weights", pf.unparse(call[0]) if call else "obj.get_weights", call[0].lineno if call else 0,
